@@ -5,6 +5,9 @@ use fcverif::replay;
 use fcverif::runner::*;
 use serde_json::{json, Value};
 
+#[global_allocator]
+static GLOBAL: fcverif::alloc_count::Counting = fcverif::alloc_count::Counting;
+
 fn arg(args: &[String], name: &str) -> Option<String> {
     args.iter().position(|a| a == name).and_then(|i| args.get(i + 1).cloned())
 }
